@@ -14,7 +14,8 @@
 (*     first (once, twice), build + SetClientRandom, build + SetSNI(same)}  *)
 (*   x server behaviour {accept, accept after HelloRetryRequest for every  *)
 (*     classical group the ID supports without sending a share, reject     *)
-(*     with 0/1/2 retry configs, reject after HRR, no ECH support}         *)
+(*     with 0/1/2 retry configs, reject after HRR, no ECH support};        *)
+(*     every HelloRetryRequest without / with a cookie of 1, 32, 255 bytes *)
 (*   x certificate {ServerName only, public name only, both, neither},     *)
 (* runs the ECH state machine on MODEL-built bytes (a small hello with the *)
 (* ID's real groups/shares; "encryption" is a byte-wise involution so that *)
@@ -29,6 +30,7 @@ CONSTANTS CfgIds,      \* config_id values
           NameSets,    \* subset of 1..Len(NamePairs)
           ShapeIdx,    \* subset of 1..Len(ListShapes): shapes of the client's ECHConfigList
           UsageIdx,    \* subset of 1..Len(Usages): how the caller drives the UConn
+          CookieLens,  \* lengths of the cookie a HelloRetryRequest carries (0 = none)
           Sample,      \* 99: the full product of the sets above;
                        \* 10..15 (thorough): config_id x AEAD x maximum_name_length reduced to a Latin square (a third), the name pair
                        \*         tied to it, full product with list shape x usage x ID x server x certificate;
@@ -75,9 +77,14 @@ Open(p) == [i \in 1..(Len(p) - TagLen) |-> (p[i] + 128) % 256]
 \* EncodedClientHelloInner: server_name, then what is taken from the outer hello (in outer order), TLS 1.3 only, the inner marker;
 \* padded as RFC 9849 6.1.3 recommends
 InnerSNI(v) == IF Mutant = "inner-names-public" THEN v.pubname ELSE v.sname
-EncodedInner(v) ==
-  LET h == U16(771) \o RandomOf(34) \o <<0>> \o Vec16(SuitesB) \o Vec8(<<0>>)
-           \o Vec16(SNIExt(InnerSNI(v)) \o OuterExtsExt(<<10, 13, 51>>) \o Ext(43, <<2, 3, 4>>) \o ECHInnerExt)
+\* the cookie a HelloRetryRequest of this scenario carries (v.cookie bytes), as the body of the cookie extension
+ModelCookieBody(v) == IF v.cookie = 0 THEN <<>> ELSE Vec16([i \in 1..v.cookie |-> 200])
+\* the second hello echoes it: the outer hello carries the extension (before key_share), the inner one takes it from there
+HasCookie(v, k) == k = 2 /\ v.cookie > 0
+EncodedInner(v, k) ==
+  LET refs == IF HasCookie(v, k) /\ Mutant # "stale-outer-list" THEN <<10, 13, 44, 51>> ELSE <<10, 13, 51>>
+      h == U16(771) \o RandomOf(34) \o <<0>> \o Vec16(SuitesB) \o Vec8(<<0>>)
+           \o Vec16(SNIExt(InnerSNI(v)) \o OuterExtsExt(refs) \o Ext(43, <<2, 3, 4>>) \o ECHInnerExt)
       p1 == Max2(0, v.maxlen - Len(v.sname))
       p2 == 31 - ((Len(h) + p1 - 1) % 32)
   IN h \o [i \in 1..(p1 + p2) |-> 0]
@@ -85,8 +92,9 @@ OuterSNI(v) == IF Mutant = "outer-sni-secret" THEN v.sname ELSE v.pubname
 OuterHello(v, k) ==
   LET shares == IF k = 1 THEN SharesOf(v.id) ELSE IF Mutant = "stale-shares" THEN SharesOf(v.id) ELSE <<v.hrr_group>> IN
   CHBytes(U16(771) \o RandomOf(17), Sid, SuitesB, <<0>>,
-          SNIExt(OuterSNI(v)) \o GroupsExt(GroupsOf(v.id)) \o SigExt \o Ext(43, Vec8(U16List(<<772, 771>>))) \o KeyShareExt(shares)
-          \o ECHOuterExt(KdfSHA256, v.aead, v.cfgid, IF k = 1 THEN ModelPK(9) ELSE <<>>, Seal(EncodedInner(v))))
+          SNIExt(OuterSNI(v)) \o GroupsExt(GroupsOf(v.id)) \o SigExt \o Ext(43, Vec8(U16List(<<772, 771>>)))
+          \o (IF HasCookie(v, k) THEN Ext(44, ModelCookieBody(v)) ELSE <<>>) \o KeyShareExt(shares)
+          \o ECHOuterExt(KdfSHA256, v.aead, v.cfgid, IF k = 1 THEN ModelPK(9) ELSE <<>>, Seal(EncodedInner(v, k))))
 \* the model server: open, parse, reconstruct
 ServerInner(o, raw) == LET outer == ParseHello(raw)
                            enc == Open(OuterECHOf(outer).payload) IN
@@ -94,10 +102,10 @@ ServerInner(o, raw) == LET outer == ParseHello(raw)
 
 \* ---------- the grid
 ServerVariants(id) ==
-        {[server |-> "accept", hrr_group |-> 0, nretry |-> 0], [server |-> "noech", hrr_group |-> 0, nretry |-> 0]}
-   \cup {[server |-> "hrr", hrr_group |-> g, nretry |-> 0] : g \in HRRGroups(id)}
-   \cup {[server |-> "reject", hrr_group |-> 0, nretry |-> r] : r \in {0, 1, 2}}
-   \cup {[server |-> "reject_hrr", hrr_group |-> g, nretry |-> 1] : g \in {x \in HRRGroups(id) : \A y \in HRRGroups(id) : x <= y}}
+        {[server |-> "accept", hrr_group |-> 0, nretry |-> 0, cookie |-> 0], [server |-> "noech", hrr_group |-> 0, nretry |-> 0, cookie |-> 0]}
+   \cup {[server |-> "hrr", hrr_group |-> g, nretry |-> 0, cookie |-> ck] : g \in HRRGroups(id), ck \in CookieLens}
+   \cup {[server |-> "reject", hrr_group |-> 0, nretry |-> r, cookie |-> 0] : r \in {0, 1, 2}}
+   \cup {[server |-> "reject_hrr", hrr_group |-> g, nretry |-> 1, cookie |-> ck] : g \in {x \in HRRGroups(id) : \A y \in HRRGroups(id) : x <= y}, ck \in CookieLens}
 \* quick tier: config_id x AEAD x maximum_name_length reduced to a Latin square (every pair of values of two parameters occurs),
 \* the name pair tied to it
 Rank(x, S) == Cardinality({y \in S : y < x})
@@ -109,12 +117,18 @@ Keep(c, a, m, n, sh, u) ==
       /\ \/ Sample >= 10
          \/ /\ Rank(sh, ShapeIdx) = (Rank(c, CfgIds) + 2 * Rank(a, AeadIds) + Sample) % Cardinality(ShapeIdx)
             /\ Rank(u, UsageIdx) = (Rank(c, CfgIds) + 3 * Rank(m, MaxLens) + Sample) % Cardinality(UsageIdx)
-VariantsOf(id) == { [id |-> id, sname |-> NamePairs[n].s, pubname |-> NamePairs[n].p, cfgid |-> c, aead |-> a, maxlen |-> m,
-                     server |-> sv.server, hrr_group |-> sv.hrr_group, nretry |-> sv.nretry, cert |-> ct, shape |-> ListShapes[sh], usage |-> Usages[u]] :
-                    <<n, c, a, m, sh, u>> \in {q \in NameSets \X CfgIds \X AeadIds \X MaxLens \X ShapeIdx \X UsageIdx : Keep(q[2], q[3], q[4], q[1], q[5], q[6])},
-                    ct \in CertKinds, sv \in ServerVariants(id) }
+\* quick tier: the cookie length of a HelloRetryRequest tied to the Latin square as well (every length with every ID and HRR group)
+KeepCookie(c, a, sv) == \/ Sample >= 10
+                        \/ ~SrvSendsHRR(sv)
+                        \/ Rank(sv.cookie, CookieLens) = (Rank(c, CfgIds) + 3 * Rank(a, AeadIds) + Sample) % Cardinality(CookieLens)
+Combos(id) == {p \in {q \in NameSets \X CfgIds \X AeadIds \X MaxLens \X ShapeIdx \X UsageIdx : Keep(q[2], q[3], q[4], q[1], q[5], q[6])}
+                     \X ServerVariants(id) : KeepCookie(p[1][2], p[1][3], p[2])}
+MkVariant(id, q, sv, ct) == [id |-> id, sname |-> NamePairs[q[1]].s, pubname |-> NamePairs[q[1]].p, cfgid |-> q[2], aead |-> q[3], maxlen |-> q[4],
+                             server |-> sv.server, hrr_group |-> sv.hrr_group, nretry |-> sv.nretry, cookie |-> sv.cookie, cert |-> ct,
+                             shape |-> ListShapes[q[5]], usage |-> Usages[q[6]]]
+VariantsOf(id) == {MkVariant(id, p[1], p[2], ct) : p \in Combos(id), ct \in CertKinds}
 Variants == UNION {VariantsOf(id) : id \in Capable}
-Scenario(v) == [id |-> v.id, sname |-> v.sname, pubname |-> v.pubname, server |-> v.server, hrr_group |-> v.hrr_group, cert |-> v.cert,
+Scenario(v) == [id |-> v.id, sname |-> v.sname, pubname |-> v.pubname, server |-> v.server, hrr_group |-> v.hrr_group, cookie |-> v.cookie, cert |-> v.cert,
                 cfgid |-> v.cfgid, aead |-> v.aead, maxlen |-> v.maxlen, nretry |-> v.nretry, shape |-> v.shape, usage |-> v.usage,
                 cfg_list |-> ModelList(v),
                 retry_list |-> IF v.nretry = 0 THEN <<>> ELSE EncCfgList([k \in 1..v.nretry |-> ModelCfg(v, k)])]
@@ -130,7 +144,8 @@ SendCH1 == /\ cli.pc = "built" /\ cli.nb = BuildsOf(scn.usage)
            /\ cli' = C_SendCH1(cli) /\ obs' = O_Hello(obs, OuterHello(scn, 1)) /\ UNCHANGED <<scn, srv>>
 SrvOnCH1 == /\ srv.pc = "wait_ch" /\ Len(obs.chs) = 1
             /\ srv' = S_OnCH1(srv, scn)
-            /\ obs' = [(IF SrvDecrypts(scn) THEN ServerInner(obs, obs.chs[1]) ELSE obs) EXCEPT !.hrr = IF SrvSendsHRR(scn) THEN scn.hrr_group ELSE 0]
+            /\ obs' = [(IF SrvDecrypts(scn) THEN ServerInner(obs, obs.chs[1]) ELSE obs) EXCEPT !.hrr = IF SrvSendsHRR(scn) THEN scn.hrr_group ELSE 0,
+                                                                                              !.cookie = IF SrvSendsHRR(scn) THEN ModelCookieBody(scn) ELSE <<>>]
             /\ UNCHANGED <<scn, cli>>
 ProcessHRR == /\ cli.pc = "wait_sh" /\ cli.nch = 1 /\ srv.pc = "wait_ch2"
               /\ cli' = C_ProcessHRR(cli) /\ UNCHANGED <<scn, srv, obs>>
@@ -165,6 +180,6 @@ ScenarioSane == /\ scn.sname # scn.pubname /\ ~Contains(scn.pubname, scn.sname)
 Progress == Terminal => Len(obs.chs) = (IF SrvSendsHRR(scn) THEN 2 ELSE 1)
 
 Emit == Terminal => PrintT(<<"SCN", ToJson([id |-> scn.id, sname |-> scn.sname, pubname |-> scn.pubname, cfgid |-> scn.cfgid, aead |-> scn.aead,
-                                              maxlen |-> scn.maxlen, server |-> scn.server, hrr_group |-> scn.hrr_group, nretry |-> scn.nretry,
+                                              maxlen |-> scn.maxlen, server |-> scn.server, hrr_group |-> scn.hrr_group, cookie |-> scn.cookie, nretry |-> scn.nretry,
                                               cert |-> scn.cert, shape |-> scn.shape, usage |-> scn.usage, minver |-> 0])>>)
 =============================================================================
